@@ -21,8 +21,10 @@ func checkC15(c *Ctx) {
 	c.Expect("C15-R2", 49)
 	c.Expect("C15-R3", 60)
 	c.Rule("C15-R5", "TPuts segmentation: the text before a padding marker is written as is, exactly the marker / terminator bytes are skipped, an unterminated specification is written back with the same marker, a string without padding is written whole, and the sleep is taken only under a non-empty pad character")
+	c.Rule("C15-R6", "the interpreter's %c writes exactly one byte (offset-32 cursor addressing encodes a coordinate as one byte, also for values of 128 and above)")
 	c.Expect("C15-R4", 4)
 	c.Expect("C15-R5", 6)
+	c.Expect("C15-R6", 1)
 	if err := tpSelfTest(); err != nil {
 		c.Undecided("C15-R2", "self-test", "-", err.Error())
 		return
@@ -39,6 +41,11 @@ func checkC15(c *Ctx) {
 	c15TColor(c, p)
 	c15TPuts(c, p)
 	c15TPutsSegments(c, p)
+	if tp := p.Fn("terminfo:(*Terminfo).TParm"); tp != nil {
+		charOutputRule(c, p, tp, nil, "C15-R6")
+	} else {
+		c.Undecided("C15-R6", "TParm", "-", "not found")
+	}
 }
 
 func c15Goto(c *Ctx, p *Prog) {
